@@ -55,6 +55,20 @@ Definition handover_ok (st : state) (o : op) (r : result) (st' : state) : bool :
   | _ => true
   end.
 
+(* the temporary queue of a stored session that is resumed starts empty: whatever was replayed to (or queued at QoS 0
+   for) an earlier connection is not handed to the new one *)
+Definition resume_clean_ok (st : state) (o : op) (r : result) (st' : state) : bool :=
+  match r with
+  | RSetup true =>
+      let empty id := match alookup bytes_eqb id (st_stored st') with Some s' => is_nil (s_tq s') | None => false end in
+      match o with
+      | OSetup _ id _ => empty id
+      | OSetupEnd _ => match st_pending st with Some p => empty (p_id p) | None => false end
+      | _ => false
+      end
+  | _ => true
+  end.
+
 Lemma setup_finish_handover st c id clean st' :
   setup_finish st c id clean = (RSetup true, st') ->
   clean = false /\ handed_over st st' id c = true.
@@ -136,4 +150,24 @@ Proof.
     pose proof (active_nodup_step st o W) as W1. destruct (step st o) as [r st1]; cbn [snd] in W1.
     specialize (IH st1 W1). destruct (run st1 ops); exact IH. }
   apply G. constructor.
+Qed.
+
+Theorem step_resume_clean_ok st o : let (r, st') := step st o in resume_clean_ok st o r st' = true.
+Proof.
+  pose proof (step_handover_ok st o) as H. destruct (step st o) as [r st']. unfold handover_ok, resume_clean_ok in *.
+  destruct r as [[|]| | | | | | | | | | | |]; try reflexivity.
+  assert (X : forall id c, handed_over st st' id c = true ->
+              match alookup bytes_eqb id (st_stored st') with Some s' => is_nil (s_tq s') | None => false end = true).
+  { intros id c. unfold handed_over. destruct (alookup bytes_eqb id (st_stored st)); [|discriminate].
+    destruct (alookup bytes_eqb id (st_stored st')); [|discriminate]. rewrite !andb_true_iff. intros [[[_ _] E] _]. exact E. }
+  destruct o as [c id clean|t|c|c subs b|c fs|c m got|c t|c|]; try discriminate.
+  - destruct clean; [discriminate|]. exact (X id c H).
+  - destruct t; [discriminate|]. destruct (st_pending st) as [p|]; [|discriminate].
+    apply andb_true_iff in H as [_ H]. exact (X _ _ H).
+Qed.
+
+Theorem resume_clean_along cap ops : holds_along resume_clean_ok cap ops.
+Proof.
+  apply holds_along_intro. intros st o _ _. pose proof (step_resume_clean_ok st o) as X.
+  destruct (step st o). intros _; exact X.
 Qed.
